@@ -613,17 +613,23 @@ def create_flow(m: ModuleInfo, res: CheckResult) -> None:
     fn = m.functions.get("create_loc_stack_checker")
     if fn is None:
         raise AnalysisError("anchor vanished: create_loc_stack_checker")
+    pr = func_params(fn)[0]
+    nvars = {norm(a.targets[0]) for a in ast.walk(fn) if isinstance(a, ast.Assign) and isinstance(a.value, ast.Call)
+             and norm(a.value.func) == "normalize_type" and [norm(x) for x in a.value.args] == [pr]}
+    if len(nvars) != 1:
+        raise AnalysisError("create_loc_stack_checker: the predicate is not normalised into one local")
+    nv = next(iter(nvars))
     res.evaluated("create:type-predicates", True)
     rets = _returns(fn)
     txt = [norm(r.value) for r in rets]
     # parametrised generics need the full normalised type; everything else goes through the origin selection
-    if "ExactTypeLSC(norm)" not in txt or txt.count("_create_loc_stack_checker_by_origin(norm.origin)") < 1:
+    if f"ExactTypeLSC({nv})" not in txt or txt.count(f"_create_loc_stack_checker_by_origin({nv}.origin)") < 1:
         res.add(Finding("C10", "CREATE.type-predicates", m.rel, "create_loc_stack_checker", "; ".join(txt),
                         "class predicates go through the abstract/concrete selection on their origin, parametrised types "
                         "through exact comparison of normalised types", fn.lineno))
     # the optimisation branch is guarded: only non generic, non parametrised predicates may be compared by origin
     for r in rets:
-        if norm(r.value) == "_create_loc_stack_checker_by_origin(norm.origin)":
+        if norm(r.value) == f"_create_loc_stack_checker_by_origin({nv}.origin)":
             iff = m.parent(r)
             res.evaluated(f"create:origin-branch:{r.lineno - fn.lineno}", True)
             if not isinstance(iff, ast.If):
@@ -631,8 +637,8 @@ def create_flow(m: ModuleInfo, res: CheckResult) -> None:
                                 "comparison by origin without a guard: List[int] would match List[str]", r.lineno))
                 continue
             t = norm(iff.test)
-            if t not in ("is_bare_generic(pred)", "not is_generic(norm.origin) and (not is_parametrized(pred))",
-                         "not is_generic(norm.origin) and not is_parametrized(pred)"):
+            if t not in (f"is_bare_generic({pr})", f"not is_generic({nv}.origin) and (not is_parametrized({pr}))",
+                         f"not is_generic({nv}.origin) and not is_parametrized({pr})"):
                 res.add(Finding("C10", "CREATE.type-predicates", m.rel, "create_loc_stack_checker", t,
                                 "comparison by origin is only sound for bare generics and for non generic, non parametrised "
                                 "classes", iff.lineno))
